@@ -67,12 +67,24 @@ theorem decodePool_eq : Generated.decodePoolDiscipline =
 
 /-- branch conditions of the byte-level codec functions the model transcribes (compact, Indent, HTMLEscape, string quoting and unquoting, the validity loop) -/
 theorem codecConditions_eq : Generated.codecConditions =
-    [
-     ("HTMLEscape", ["for i, c := range src", "if c == '<' || c == '>' || c == '&'", "if start < i", "if c == 0xE2 && i+2 < len(src) && src[i+1] == 0x80 && src[i+2]&^1 == 0xA8", "if start < i", "if start < len(src)"]),
+        [("HTMLEscape", ["for i, c := range src", "if c == '<' || c == '>' || c == '&'", "if start < i", "if c == 0xE2 && i+2 < len(src) && src[i+1] == 0x80 && src[i+2]&^1 == 0xA8", "if start < i", "if start < len(src)"]),
      ("Indent", ["for _, c := range src", "if v == scanSkipSpace", "if v == scanError", "if needIndent && v != scanEndObject && v != scanEndArray", "if v == scanContinue", "switch c", "case '{', '['", "case ','", "case ':'", "case '}', ']'", "if needIndent", "else", "default", "if scan.eof() == scanError"]),
      ("Valid", []),
      ("checkValid", ["for _, c := range data", "if scan.step(scan, c) == scanError", "if scan.eof() == scanError"]),
      ("compact", ["for i, c := range src", "if escape && (c == '<' || c == '>' || c == '&')", "if start < i", "if escape && c == 0xE2 && i+2 < len(src) && src[i+1] == 0x80 && src[i+2]&^1 == 0xA8", "if start < i", "if v >= scanSkipSpace", "if v == scanError", "if start < i", "if scan.eof() == scanError", "if start < len(src)"]),
+     ("decodeState.array", ["if u != nil", "if ut != nil", "switch v.Kind()", "case reflect.Interface", "if v.NumMethod() == 0", "default", "case reflect.Array, reflect.Slice", "for ", "if d.opcode == scanEndArray", "if v.Kind() == reflect.Slice", "if i >= v.Cap()", "if newcap < 4", "if i >= v.Len()", "if i < v.Len()", "if err := d.value(v.Index(i)); err != nil", "else", "if err := d.value(reflect.Value{}); err != nil", "if d.opcode == scanSkipSpace", "if d.opcode == scanEndArray", "if d.opcode != scanArrayValue", "if i < v.Len()", "if v.Kind() == reflect.Array", "for ; i < v.Len(); i++", "else", "if i == 0 && v.Kind() == reflect.Slice"]),
+     ("decodeState.arrayInterface", ["for ", "if d.opcode == scanEndArray", "if d.opcode == scanSkipSpace", "if d.opcode == scanEndArray", "if d.opcode != scanArrayValue"]),
+     ("decodeState.init", ["if d.errorContext != nil"]),
+     ("decodeState.literalInterface", ["switch c := item[0]; c", "if !ok", "if c != '-' && (c < '0' || c > '9')", "if err != nil"]),
+     ("decodeState.literalStore", ["if len(item) == 0", "if u != nil", "if ut != nil", "if item[0] != '\"'", "if fromQuoted", "switch item[0]", "case 'n'", "case 't', 'f'", "if !ok", "if fromQuoted", "switch c := item[0]; c", "if fromQuoted && string(item) != \"null\"", "switch v.Kind()", "case reflect.Interface, reflect.Pointer, reflect.Map, reflect.Slice", "if fromQuoted && string(item) != \"true\" && string(item) != \"false\"", "switch v.Kind()", "default", "if fromQuoted", "else", "case reflect.Bool", "case reflect.Interface", "if v.NumMethod() == 0", "else", "if !ok", "if fromQuoted", "switch v.Kind()", "default", "case reflect.Slice", "if v.Type().Elem().Kind() != reflect.Uint8", "if err != nil", "case reflect.String", "if v.Type() == numberType && !isValidNumber(string(s))", "case reflect.Interface", "if v.NumMethod() == 0", "else", "if c != '-' && (c < '0' || c > '9')", "if fromQuoted", "switch v.Kind()", "default", "if v.Kind() == reflect.String && v.Type() == numberType", "if fromQuoted", "case reflect.Interface", "if err != nil", "if v.NumMethod() != 0", "case reflect.Int, reflect.Int8, reflect.Int16, reflect.Int32, reflect.Int64", "if err != nil || v.OverflowInt(n)", "case reflect.Uint, reflect.Uint8, reflect.Uint16, reflect.Uint32, reflect.Uint64, reflect.Uintptr", "if err != nil || v.OverflowUint(n)", "case reflect.Float32, reflect.Float64", "if err != nil || v.OverflowFloat(n)"]),
+     ("decodeState.object", ["if u != nil", "if ut != nil", "if v.Kind() == reflect.Interface && v.NumMethod() == 0", "switch v.Kind()", "case reflect.Map", "switch t.Key().Kind()", "default", "if !reflect.PointerTo(t.Key()).Implements(textUnmarshalerType)", "if v.IsNil()", "case reflect.Struct", "default", "if d.errorContext != nil", "for ", "if d.opcode == scanEndObject", "if d.opcode != scanBeginLiteral", "if !ok", "if v.Kind() == reflect.Map", "if !mapElem.IsValid()", "else", "else", "if i, ok := fields.nameIndex[string(key)]; ok", "else", "for i := range fields.list", "if ff.equalFold(ff.nameBytes, key)", "if f != nil", "for _, i := range f.index", "if subv.Kind() == reflect.Pointer", "if subv.IsNil()", "if !subv.CanSet()", "if d.errorContext == nil", "if d.disallowUnknownFields", "if d.opcode == scanSkipSpace", "if d.opcode != scanObjectKey", "if destring", "switch qv := d.valueQuoted().(type)", "case nil", "if err := d.literalStore(nullLiteral, subv, false); err != nil", "case string", "if err := d.literalStore([]byte(qv), subv, true); err != nil", "default", "else", "if err := d.value(subv); err != nil", "if v.Kind() == reflect.Map", "switch ", "case reflect.PointerTo(kt).Implements(textUnmarshalerType)", "if err := d.literalStore(item, kv, true); err != nil", "case kt.Kind() == reflect.String", "default", "switch kt.Kind()", "case reflect.Int, reflect.Int8, reflect.Int16, reflect.Int32, reflect.Int64", "if err != nil || reflect.Zero(kt).OverflowInt(n)", "case reflect.Uint, reflect.Uint8, reflect.Uint16, reflect.Uint32, reflect.Uint64, reflect.Uintptr", "if err != nil || reflect.Zero(kt).OverflowUint(n)", "default", "if kv.IsValid()", "if d.opcode == scanSkipSpace", "if d.errorContext != nil", "if d.opcode == scanEndObject", "if d.opcode != scanObjectValue", "if v.Kind() == reflect.Map"]),
+     ("decodeState.objectInterface", ["for ", "if d.opcode == scanEndObject", "if d.opcode != scanBeginLiteral", "if !ok", "if d.opcode == scanSkipSpace", "if d.opcode != scanObjectKey", "if d.opcode == scanSkipSpace", "if d.opcode == scanEndObject", "if d.opcode != scanObjectValue"]),
+     ("decodeState.scanNext", ["if d.off < len(d.data)", "else"]),
+     ("decodeState.scanWhile", ["for i < len(data)", "if newOp != op"]),
+     ("decodeState.skip", ["for ", "if len(s.parseState) < depth"]),
+     ("decodeState.unmarshal", ["if rv.Kind() != reflect.Pointer || rv.IsNil()", "if err != nil"]),
+     ("decodeState.value", ["switch d.opcode", "default", "case scanBeginArray", "if v.IsValid()", "if err := d.array(v); err != nil", "else", "case scanBeginObject", "if v.IsValid()", "if err := d.object(v); err != nil", "else", "case scanBeginLiteral", "if v.IsValid()", "if err := d.literalStore(d.data[start:d.readIndex()], v, false); err != nil"]),
+     ("decodeState.valueInterface", ["switch d.opcode", "default", "case scanBeginArray", "case scanBeginObject", "case scanBeginLiteral"]),
      ("encodeState.string", ["for i := 0; i < len(s);", "if b := s[i]; b < utf8.RuneSelf", "if htmlSafeSet[b] || (!escapeHTML && safeSet[b])", "if start < i", "switch b", "case '\\\\', '\"'", "case '\\n'", "case '\\r'", "case '\\t'", "default", "if c == utf8.RuneError && size == 1", "if start < i", "if c == '\\u2028' || c == '\\u2029'", "if start < i", "if start < len(s)"]),
      ("getu4", ["if len(s) < 6 || s[0] != '\\\\' || s[1] != 'u'", "for _, c := range s[2:6]", "switch ", "case '0' <= c && c <= '9'", "case 'a' <= c && c <= 'f'", "case 'A' <= c && c <= 'F'", "default"]),
      ("pushParseState", ["if len(s.parseState) <= maxNestingDepth"]),
